@@ -38,12 +38,12 @@ import (
 )
 
 const (
-	memLimit      = 4 << 30
-	smallLimit    = 192 << 20
-	allocSlack    = 16 << 20
-	allocPerByte  = 1024
-	watchdogCPU   = 60 * time.Second
-	watchdogWall  = 15 * time.Minute
+	memLimit     = 4 << 30
+	smallLimit   = 192 << 20
+	allocSlack   = 16 << 20
+	allocPerByte = 1024
+	watchdogCPU  = 60 * time.Second
+	watchdogWall = 15 * time.Minute
 )
 
 // probeMarker is published instead of a case index while the length fields of a seed are probed.
@@ -79,9 +79,9 @@ func (d *dtarget) decode(b []byte) (v reflect.Value, n int, err error) {
 }
 
 type seed struct {
-	Desc   string
-	Bytes  []byte // nil: the value has no encoding (Encode failed; that is C01's subject)
-	Sites  []site // pre-allocating length fields (see findSites)
+	Desc  string
+	Bytes []byte // nil: the value has no encoding (Encode failed; that is C01's subject)
+	Sites []site // pre-allocating length fields (see findSites)
 }
 
 // ---- units ------------------------------------------------------------------------------------
@@ -419,25 +419,25 @@ type unitResult struct {
 }
 
 type executor struct {
-	prop      string // C02 or C03
-	plan      *plan
-	pub       []byte
-	memo      map[string]bool
-	memoFile  *os.File
-	res       *unitResult
-	sample    []metrics.Sample
-	caseStart atomic.Int64 // unix nanos of the running case, 0 if none
-	caseSeq   atomic.Int64
-	scratch   []byte
-	topCache  map[string]string
-	lastProf  map[[32]uintptr]profEntry
-	curUnit   int
-	curM      int
-	violated  bool // the running case has produced a violation
-	out       *bufio.Writer
-	sigSeen   map[string]int
-	shape     string // shape of the attacked length field of the running case ("" if none)
-	towerKind string
+	prop       string // C02 or C03
+	plan       *plan
+	pub        []byte
+	memo       map[string]bool
+	memoFile   *os.File
+	res        *unitResult
+	sample     []metrics.Sample
+	caseStart  atomic.Int64 // unix nanos of the running case, 0 if none
+	caseSeq    atomic.Int64
+	scratch    []byte
+	topCache   map[string]string
+	lastProf   map[[32]uintptr]profEntry
+	curUnit    int
+	curM       int
+	violated   bool // the running case has produced a violation
+	out        *bufio.Writer
+	sigSeen    map[string]int
+	shape      string // shape of the attacked length field of the running case ("" if none)
+	towerKind  string
 	towerDepth int
 }
 
@@ -573,6 +573,14 @@ func (e *executor) runCaseKey(t *dtarget, in []byte, key string, desc func() str
 	var v reflect.Value
 	var n int
 	var err error
+	if e.pub != nil { // the input itself, for the report of a process death
+		n := len(in)
+		binary.LittleEndian.PutUint32(e.pub[512:], uint32(n))
+		if n > 3000 {
+			n = 3000
+		}
+		copy(e.pub[516:], in[:n])
+	}
 	e.caseStart.Store(time.Now().UnixNano())
 	e.caseSeq.Add(1)
 	a0 := e.readAlloc()
@@ -593,7 +601,7 @@ func (e *executor) runCaseKey(t *dtarget, in []byte, key string, desc func() str
 		switch {
 		case g.panicked:
 			r.Outcomes["panic"]++
-			e.violate("decode/"+t.class()+"/panic:"+g.pclass+"/"+g.ptop, fmt.Sprintf("%s; input %x (%s)", g.pmsg, clipBytes(in), desc()), rp())
+			e.violate("decode/panic:"+g.pclass+"/"+g.ptop, fmt.Sprintf("%s; entry point %s; input %x (%s)", g.pmsg, t.Name, clipBytes(in), desc()), rp())
 		case err != nil:
 			r.Outcomes["error:"+errClass(err)]++
 		default:
@@ -617,7 +625,7 @@ func (e *executor) runCaseKey(t *dtarget, in []byte, key string, desc func() str
 				}
 			}
 			r.Outcomes["alloc-over-bound"]++
-			e.violate("decode/"+t.class()+"/alloc"+shapeSuffix(e.shape), fmt.Sprintf("allocated %d bytes for an input of %d bytes (bound %d), largest allocation in %s; input %x (%s)", alloc, len(in), bound, top, clipBytes(in), desc()), rp())
+			e.violate("decode/alloc"+shapeSuffix(e.shape), fmt.Sprintf("allocated %d bytes for an input of %d bytes (bound %d), largest allocation in %s; entry point %s; input %x (%s)", alloc, len(in), bound, top, t.Name, clipBytes(in), desc()), rp())
 			return true
 		}
 		return false
@@ -636,6 +644,7 @@ func (e *executor) runCaseKey(t *dtarget, in []byte, key string, desc func() str
 	e.publishPhase("@reencode")
 	e.caseStart.Store(time.Now().UnixNano())
 	sig, detail := reencodeOracle(t, v, n, in)
+	detail = "entry point " + t.Name + ": " + detail
 	e.caseStart.Store(0)
 	if sig == "" {
 		r.Outcomes["stable"]++
@@ -674,14 +683,13 @@ func clipBytes(b []byte) []byte {
 // reencodeOracle: Encode(v) must succeed; decoding that encoding (stand-alone and followed by other
 // data) must give a value equal to v and consume exactly the encoding.
 func reencodeOracle(t *dtarget, v reflect.Value, n int, in []byte) (string, string) {
-	cls := t.class()
 	var enc []byte
 	var err error
 	if g := guard(func() { enc, err = ua.Encode(v.Interface()) }); g.panicked {
-		return "reencode/" + cls + "/encode-panic:" + g.pclass + "/" + g.ptop, fmt.Sprintf("%s; input %x", g.pmsg, clipBytes(in))
+		return "reencode/encode-panic:" + g.pclass + "/" + g.ptop, fmt.Sprintf("%s; input %x", g.pmsg, clipBytes(in))
 	}
 	if err != nil {
-		return "reencode/" + cls + "/encode-error:" + errClass(err), fmt.Sprintf("%v; input %x", err, clipBytes(in))
+		return "reencode/encode-error:" + errClass(err), fmt.Sprintf("%v; input %x", err, clipBytes(in))
 	}
 	wire := enc
 	if t.svc {
@@ -694,33 +702,33 @@ func reencodeOracle(t *dtarget, v reflect.Value, n int, in []byte) (string, stri
 	var v2 reflect.Value
 	var n2 int
 	if g := guard(func() { v2, n2, err = t.decode(wire) }); g.panicked {
-		return "reencode/" + cls + "/redecode-panic:" + g.pclass + "/" + g.ptop, fmt.Sprintf("%s; input %x reencoded %x", g.pmsg, clipBytes(in), clipBytes(enc))
+		return "reencode/redecode-panic:" + g.pclass + "/" + g.ptop, fmt.Sprintf("%s; input %x reencoded %x", g.pmsg, clipBytes(in), clipBytes(enc))
 	}
 	if err != nil {
-		return "reencode/" + cls + "/redecode-error:" + errClass(err), fmt.Sprintf("%v; input %x reencoded %x", err, clipBytes(in), clipBytes(enc))
+		return "reencode/redecode-error:" + errClass(err), fmt.Sprintf("%v; input %x reencoded %x", err, clipBytes(in), clipBytes(enc))
 	}
 	if d := diff(v, v2, "", normC03, 0); d != "" {
-		return "reencode/" + cls + "/value-differs@" + diffLeaf(d), fmt.Sprintf("%s; input %x reencoded %x", d, clipBytes(in), clipBytes(enc))
+		return "reencode/value-differs@" + diffLeaf(d), fmt.Sprintf("%s; input %x reencoded %x", d, clipBytes(in), clipBytes(enc))
 	}
 	if !t.svc {
 		if n2 != len(enc) {
-			return "reencode/" + cls + "/reencoding-not-consumed", fmt.Sprintf("decoding the re-encoding consumed %d of %d bytes; input %x reencoded %x", n2, len(enc), clipBytes(in), clipBytes(enc))
+			return "reencode/reencoding-not-consumed", fmt.Sprintf("decoding the re-encoding consumed %d of %d bytes; input %x reencoded %x", n2, len(enc), clipBytes(in), clipBytes(enc))
 		}
 		// as a field of a container: followed by a sentinel
 		var v3 reflect.Value
 		var n3 int
 		emb := append(append([]byte{}, enc...), trailer...)
 		if g := guard(func() { v3, n3, err = t.decode(emb) }); g.panicked {
-			return "reencode/" + cls + "/embedded-redecode-panic:" + g.pclass + "/" + g.ptop, g.pmsg
+			return "reencode/embedded-redecode-panic:" + g.pclass + "/" + g.ptop, g.pmsg
 		}
 		if err != nil {
-			return "reencode/" + cls + "/embedded-redecode-error:" + errClass(err), fmt.Sprintf("%v; input %x reencoded %x", err, clipBytes(in), clipBytes(enc))
+			return "reencode/embedded-redecode-error:" + errClass(err), fmt.Sprintf("%v; input %x reencoded %x", err, clipBytes(in), clipBytes(enc))
 		}
 		if n3 != len(enc) {
-			return "reencode/" + cls + "/embedded-sentinel-changed", fmt.Sprintf("in a container the re-encoded value is read as %d bytes instead of %d: the following field changes; input %x reencoded %x", n3, len(enc), clipBytes(in), clipBytes(enc))
+			return "reencode/embedded-sentinel-changed", fmt.Sprintf("in a container the re-encoded value is read as %d bytes instead of %d: the following field changes; input %x reencoded %x", n3, len(enc), clipBytes(in), clipBytes(enc))
 		}
 		if d := diff(v, v3, "", normC03, 0); d != "" {
-			return "reencode/" + cls + "/embedded-value-differs@" + diffLeaf(d), d
+			return "reencode/embedded-value-differs@" + diffLeaf(d), d
 		}
 	}
 	_ = n
@@ -996,7 +1004,19 @@ func (e *executor) runGrid(ui int, t *dtarget, chunk int, skip map[int]bool) {
 	m := -1
 	idx := -1
 	var buf []byte
+	pass := 0
 	emit := func(typ byte, flags byte, n int32, elems int, nd int32, dims []int32) {
+		// pass 0: the inputs with plausible lengths; pass 1: the attacks on lengths and dimensions
+		// (on a tree where these kill the process the unit is cut short after a few deaths)
+		big := n > 0xffff || n < -1 || nd > 4 || nd < 0
+		for _, d := range dims {
+			if d > 3 || d < 0 {
+				big = true
+			}
+		}
+		if big != (pass == 1) {
+			return
+		}
 		idx++
 		if idx%gridChunks != chunk {
 			return
@@ -1028,59 +1048,61 @@ func (e *executor) runGrid(ui int, t *dtarget, chunk int, skip map[int]bool) {
 			return fmt.Sprintf("variant grid type=%d flags=%#x arrayLength=%d elements=%d dimensions=%d %v", typ, flags, n, elems, nd, dims)
 		})
 	}
-	for _, typ := range gridTypes {
-		for _, n := range gridLens {
-			present := []int{0}
-			if n > 0 && n <= 6 {
-				present = []int{int(n), int(n) - 1}
-			}
-			for _, el := range present {
-				// array without dimensions
-				emit(typ, 0x80, n, el, 0, nil)
-				// scalar with the dimensions bit
-				if n == 0 {
-					emit(typ, 0x40, 0, 1, 0, nil)
+	for pass = 0; pass < 2; pass++ {
+		for _, typ := range gridTypes {
+			for _, n := range gridLens {
+				present := []int{0}
+				if n > 0 && n <= 6 {
+					present = []int{int(n), int(n) - 1}
 				}
-				for _, nd := range gridDimCounts {
-					switch {
-					case nd <= 0 || nd > 4:
-						emit(typ, 0xc0, n, el, nd, nil)
-						emit(typ, 0xc0, n, el, nd, []int32{1, 1})
-					default:
-						// every dims vector of that length over gridDims, plus the modular solutions
-						vec := make([]int32, nd)
-						var rec func(i int)
-						rec = func(i int) {
-							if i == int(nd) {
-								emit(typ, 0xc0, n, el, nd, append([]int32(nil), vec...))
-								return
-							}
-							// the dimension arithmetic does not depend on the element type: the large
-							// dimensions are combined with two element types only
-							ds := gridDimsSmall
-							if typ == 0x01 || typ == 0x18 {
-								ds = gridDimsBig
-							}
-							for _, d := range ds {
-								vec[i] = d
-								rec(i + 1)
-							}
-						}
-						if nd <= 3 {
-							rec(0)
-						} else {
-							emit(typ, 0xc0, n, el, nd, []int32{2, 1, 1, 2})
-							emit(typ, 0xc0, n, el, nd, []int32{0x10000, 0x10000, 1, 1})
-						}
-						if nd >= 2 && (typ == 0x01 || typ == 0x18 || typ == 0x06) {
-							// d1 odd, d2 = n * d1^-1 (mod 2^32): the product wraps around to n
-							for _, d1 := range []uint32{3, 5, 0x10001, 0x7fffffff} {
-								d2 := uint32(n) * modInverse32(d1)
-								dv := []int32{int32(d1), int32(d2)}
-								for len(dv) < int(nd) {
-									dv = append(dv, 1)
+				for _, el := range present {
+					// array without dimensions
+					emit(typ, 0x80, n, el, 0, nil)
+					// scalar with the dimensions bit
+					if n == 0 {
+						emit(typ, 0x40, 0, 1, 0, nil)
+					}
+					for _, nd := range gridDimCounts {
+						switch {
+						case nd <= 0 || nd > 4:
+							emit(typ, 0xc0, n, el, nd, nil)
+							emit(typ, 0xc0, n, el, nd, []int32{1, 1})
+						default:
+							// every dims vector of that length over gridDims, plus the modular solutions
+							vec := make([]int32, nd)
+							var rec func(i int)
+							rec = func(i int) {
+								if i == int(nd) {
+									emit(typ, 0xc0, n, el, nd, append([]int32(nil), vec...))
+									return
 								}
-								emit(typ, 0xc0, n, el, nd, dv)
+								// the dimension arithmetic does not depend on the element type: the large
+								// dimensions are combined with two element types only
+								ds := gridDimsSmall
+								if typ == 0x01 || typ == 0x18 {
+									ds = gridDimsBig
+								}
+								for _, d := range ds {
+									vec[i] = d
+									rec(i + 1)
+								}
+							}
+							if nd <= 3 {
+								rec(0)
+							} else {
+								emit(typ, 0xc0, n, el, nd, []int32{2, 1, 1, 2})
+								emit(typ, 0xc0, n, el, nd, []int32{0x10000, 0x10000, 1, 1})
+							}
+							if nd >= 2 && (typ == 0x01 || typ == 0x18 || typ == 0x06) {
+								// d1 odd, d2 = n * d1^-1 (mod 2^32): the product wraps around to n
+								for _, d1 := range []uint32{3, 5, 0x10001, 0x7fffffff} {
+									d2 := uint32(n) * modInverse32(d1)
+									dv := []int32{int32(d1), int32(d2)}
+									for len(dv) < int(nd) {
+										dv = append(dv, 1)
+									}
+									emit(typ, 0xc0, n, el, nd, dv)
+								}
 							}
 						}
 					}
@@ -1323,7 +1345,7 @@ func superviseShard(prop string, s evid.ShardInfo, w *evid.Run, p *plan, assign 
 	// run. On a tree without such inputs nothing is cut.
 	budgets := []int{24, 48, 12, 12, 12, 8}
 	if p.thorough {
-		budgets = []int{512, 512, 256, 256, 256, 128}
+		budgets = []int{96, 192, 48, 48, 48, 32}
 	}
 	classNames := []string{"default seeds of built-ins", "exhaustive/grid/tower units", "default seeds of generated types", "other seeds of built-ins", "other seeds of generated types", "pairs"}
 	fails, curClass := 0, -1
@@ -1477,16 +1499,21 @@ func superviseShard(prop string, s evid.ShardInfo, w *evid.Run, p *plan, assign 
 		u := myUnits[ui]
 		t := p.targets[u.Target]
 		in, desc := reconstructCase(p, u, m)
-		if prop == "C02" {
-			sig := "decode/" + t.class() + "/" + kind + "/" + top
-			if kind == "alloc" {
-				sig = "decode/" + t.class() + "/alloc" + shapeSuffix(shape)
+		if in == nil {
+			if n := int(binary.LittleEndian.Uint32(pub[512:])); n <= 3000 {
+				in = append([]byte{}, pub[516:516+n]...)
 			}
-			w.Violate(sig, fmt.Sprintf("the decoding process died (%v) on input %x (%s)\n%s", werr, clipBytes(in), desc, firstLines(stderr, 14)),
+		}
+		if prop == "C02" {
+			sig := "decode/" + kind + "/" + top
+			if kind == "alloc" {
+				sig = "decode/alloc" + shapeSuffix(shape)
+			}
+			w.Violate(sig, fmt.Sprintf("the decoding process died (%v); entry point %s; input %x (%s)\n%s", werr, t.Name, clipBytes(in), desc, firstLines(stderr, 14)),
 				caseReplay{Target: t.Name, Kind: t.Kind, Hex: hex.EncodeToString(clipReplay(in)), Desc: desc})
 			outcomes["process-death:"+kind]++
 		} else if key == "@reencode" {
-			w.Violate("reencode/"+t.class()+"/process-death:"+kind+"/"+top, fmt.Sprintf("the process died (%v) while re-encoding or re-decoding the value decoded from %x (%s)\n%s", werr, clipBytes(in), desc, firstLines(stderr, 14)),
+			w.Violate("reencode/process-death:"+kind+"/"+top, fmt.Sprintf("entry point "+t.Name+": the process died (%v) while re-encoding or re-decoding the value decoded from %x (%s)\n%s", werr, clipBytes(in), desc, firstLines(stderr, 14)),
 				caseReplay{Target: t.Name, Kind: t.Kind, Hex: hex.EncodeToString(clipReplay(in)), Desc: desc})
 			outcomes["process-death-in-reencode:"+kind]++
 			key = ""
@@ -1576,7 +1603,7 @@ func reconstructCase(p *plan, u unit, m int) ([]byte, string) {
 			return tower(u.Seed, d[m]), fmt.Sprintf("tower %s depth %d", towerKinds[u.Seed], d[m])
 		}
 	}
-	return nil, fmt.Sprintf("%s unit of %s, case %d (re-run with --replay not available; see unit enumeration)", u.Kind, t.Name, m)
+	return nil, fmt.Sprintf("%s unit of %s, case %d ", u.Kind, t.Name, m)
 }
 
 // ---- entry ------------------------------------------------------------------------------------
@@ -1665,6 +1692,28 @@ func runC02(prop string) {
 }
 
 func replayC02(prop string, rc caseReplay) {
+	if os.Getenv("VERIF_CODEC_REPLAYCHILD") == "" {
+		// run the case in a child under the address-space limit: it may kill the process
+		cmd := exec.Command("/proc/self/exe", os.Args[1:]...)
+		cmd.Env = append(os.Environ(), "VERIF_CODEC_REPLAYCHILD=1", "GOMAXPROCS=2")
+		hw := &headWriter{max: 4 << 10}
+		cmd.Stdout, cmd.Stderr = os.Stdout, hw
+		err := cmd.Run()
+		if ee, ok := err.(*exec.ExitError); ok && ee.ExitCode() == 1 {
+			exit(1)
+		}
+		if err != nil {
+			kind, top := deathClass(hw.b.String(), err.Error())
+			fmt.Printf("  the process died (%v): kind=%s top=%s\n%s\n", err, kind, top, firstLines(hw.b.String(), 10))
+			exit(1)
+		}
+		exit(0)
+	}
+	lim := syscall.Rlimit{Cur: memLimit, Max: memLimit}
+	syscall.Setrlimit(syscall.RLIMIT_AS, &lim)
+	if rc.Tower == "" {
+		setAddressSpace("mut")
+	}
 	ts := discover(nil)
 	p := makePlan(ts, false)
 	for _, t := range p.targets {
